@@ -48,9 +48,9 @@ def main():
             return 2
         r = sh(['git', '-C', wt, 'apply', os.path.abspath(patch)])
         if r.returncode:
-            r = sh(['git', '-C', wt, 'apply', '--3way', os.path.abspath(patch)])
-        if r.returncode:
-            r = sh(['patch', '-p1', '--fuzz=3', '-i', os.path.abspath(patch)], cwd=wt)
+            r = sh(['patch', '-p1', '--fuzz=3', '--no-backup-if-mismatch', '-N', '-i', os.path.abspath(patch)], cwd=wt)
+            if r.returncode:
+                sh(['git', '-C', wt, 'checkout', '--', '.'])
         if r.returncode:
             print('PATCH-DOES-NOT-APPLY', patch, r.stderr[-500:], r.stdout[-500:])
             return 2
